@@ -56,7 +56,11 @@ json generate(uint64_t seed, uint64_t idx, int tier)
 				 {{"n", "b"}, {"t", "bool"}, {"d", false}},
 				 {{"n", "il"}, {"t", "int"}, {"fl", F_LIST}},
 				 {{"n", "fl"}, {"t", "float"}, {"fl", F_LIST}},
-				 {{"n", "bl"}, {"t", "bool"}, {"fl", F_LIST}}});
+				 {{"n", "bl"}, {"t", "bool"}, {"fl", F_LIST}},
+				 // bound to application variables (CFG_SIMPLE_*): the converted value is stored through the pointer
+				 {{"n", "si"}, {"t", "int"}, {"simple", 1}},
+				 {{"n", "sf"}, {"t", "float"}, {"simple", 1}},
+				 {{"n", "sb"}, {"t", "bool"}, {"simple", 1}}});
 	plan["schemas"] = json::array({{{"opts", opts}}});
 	plan["knobs"] = {{"tty", r.chance(1, 5)}};
 	json steps = json::array();
@@ -80,6 +84,8 @@ json generate(uint64_t seed, uint64_t idx, int tier)
 		static const char *types[] = {"int", "int", "float", "bool"};
 		std::string ty = types[r.below(4)];
 		std::string scalar = ty == "int" ? "i" : ty == "float" ? "f" : "b";
+		if (r.chance(1, 4))
+			scalar = "s" + scalar; // the variant bound to an application variable
 		std::string list = ty == "int" ? "il" : ty == "float" ? "fl" : "bl";
 		json s;
 		switch (r.below(4)) {
@@ -126,6 +132,13 @@ bool dump_value(const std::string &dump, const std::string &name, std::string *v
 		p++;
 	size_t eol = dump.find('\n', p);
 	std::string line = dump.substr(p, eol - p);
+	size_t sp = line.find(" simple=");
+	if (sp != std::string::npos) {
+		// bound to an application variable
+		size_t e2 = line.find(' ', sp + 8);
+		*val = line.substr(sp + 8, e2 == std::string::npos ? std::string::npos : e2 - sp - 8);
+		return true;
+	}
 	size_t b = line.find('['), e = line.rfind(']');
 	if (b == std::string::npos || e == std::string::npos || e <= b + 1)
 		return false;
